@@ -558,7 +558,9 @@ impl C15 {
         if let Some(c) = pending_call {
             cmds.push(c);
         }
-        let cmds = normalise(cmds);
+        let mut cmds = normalise(cmds);
+        // positional parameters must arrive the same way through every delivery mode
+        cmds.insert(0, Cmd { lines: vec!["probe args \"$#\" \"$1\" \"$2\"".to_string()], tags: vec!["args".into()], out: String::new(), heredoc: false, continuation: false, subst_tags: vec![] });
         let script = script_of(&cmds);
         // chunkings: (chunk sizes, BufReader capacity)
         let line_chunks: Vec<usize> = script.split_inclusive('\n').map(|l| l.len()).collect();
@@ -609,6 +611,7 @@ fn judge_delivery(case: &Case, v: &mut Verdict) {
     let run = |fe: FrontEnd, cfg: &SimConfig, text: &str| -> RunResult {
         let mut spec = RunSpec::new(text.to_string(), fe, cfg.clone());
         spec.via_entry = case.via_entry;
+        spec.args = vec!["a1".to_string(), "b 2".to_string()];
         runner::run(&spec)
     };
     let mut account = |v: &mut Verdict, r: &RunResult| {
